@@ -100,6 +100,16 @@ class DefaultAttrVertex(Vertex):
         return None
 
 
+class StrVertex(Vertex):
+    """__str__ / __format__ differ from __repr__ (text outputs are specified in terms of repr)."""
+
+    def __str__(self):
+        return "friendly-%s" % getattr(self, "i", "?")
+
+    def __repr__(self):
+        return "<StrVertex %s>" % getattr(self, "i", "?")
+
+
 class ViewVertex(Vertex):
     """
     Overrides the public `links` accessor with a pure view (same links, reversed order).  Everything the
@@ -144,12 +154,19 @@ class EmptyDirected(DirectedEdge):
         return 0
 
 
+class RoadLink(DirectedEdge):
+    """A directed edge whose constructor names its two positional parameters differently."""
+
+    def __init__(self, origin=None, destination=None, *, uid=None, attributes=None):
+        super().__init__(origin, destination, uid=uid, attributes=attributes)
+
+
 # a DIFFERENT class with the same module and qualified name as SubDirected, but of another kind (a class statement
 # executed again with another base, as happens with factories / reloaded plugins)
 SubDirectedTwin = type("SubDirected", (UnDirectedEdge,), {"__module__": __name__, "__qualname__": "SubDirected"})
 
 LINK_CLASSES = [DirectedEdge, UnDirectedEdge, SubDirected, SubUndirected, OddLink, SubOdd, MixedDirected, OddDirected, SubDirectedTwin,
-                BothEdge, EmptyDirected]
+                BothEdge, EmptyDirected, RoadLink]
 LINK_NAMES = [c.__name__ for c in LINK_CLASSES]
 KIND = {
     DirectedEdge: "D",
@@ -163,8 +180,9 @@ KIND = {
     SubDirectedTwin: "U",
     BothEdge: "U",
     EmptyDirected: "D",
+    RoadLink: "D",
 }
-VERTEX_CLASSES = [Vertex, SubVertex, FalsyVertex, EmptyLenVertex, MixedVertex, SubVertexTwin, ViewVertex, HotVertex]
+VERTEX_CLASSES = [Vertex, SubVertex, FalsyVertex, EmptyLenVertex, MixedVertex, SubVertexTwin, ViewVertex, HotVertex, StrVertex, Universe]
 # classes usable in histories (importable: histories are pickled; insertion-ordered `links`)
 WORLD_VERTEX_CLASSES = [Vertex, SubVertex, FalsyVertex, EmptyLenVertex, MixedVertex, UidHashVertex]
 
